@@ -14,6 +14,7 @@ Line protocol of the C08 model (fast fields / columnar).
   encode <codec> <vals>              -> hex of the column values (codec byte included) | none
   decode <hex> <idxs|all>            -> `codec min max gcd rows;v,v,..` | corrupt
   decode128 <hex> <idxs|all>         -> `rows min max bits ranges;v,v,..` of a compact-space u128 column | corrupt
+  range128 <hex> <lo> <hi> <s> <e>   -> positions get_row_ids_for_value_range reports on a compact-space column
   optenc <numRows> <rows>            -> hex of serialize_optional_index
   optidx <hex> <docs> <ranks>        -> `numDocs numNonNull;rank..;rankIfExists..;select..` (x = none)
   i64_to_u64 / u64_to_i64 / f64_to_u64 / u64_to_f64 <bits>
@@ -139,6 +140,14 @@ def handle : List String → String
         | none => "bad-op"
       | none => "corrupt"
     | none => "bad-op"
+  | ["range128", h, lo, hi, st, en] =>
+    match bytesArg h, lo.toNat?, hi.toNat?, st.toNat?, en.toNat? with
+    | some bytes, some lo, some hi, some st, some en =>
+      match openU128Column bytes with
+      | some c =>
+        showNatList (compactRangeRows c.ranges ((List.range c.numVals).map (fun i => unpackGet c.numBits i c.data)) lo hi st en)
+      | none => "corrupt"
+    | _, _, _, _, _ => "bad-op"
   | ["optenc", n, rows] =>
     match n.toNat?, natList rows with
     | some n, some rs => hexOfBytes (ofNats (optEnc rs n))
